@@ -42,7 +42,7 @@ ASSUMPTIONS = [
     "NumPy reference computed in float64; sum/mean compared within 4*n*u*sum|x|, var/std within the sum-of-squares bound, min/max/count exactly",
     "helper clauses are pure functions evaluated alongside (no schedule in them)",
 ]
-EXPECTED_PROBES = ["blocks_ge2", "blocks_gt_elements", "all_null_block", "default_threads_heuristic_gt1", "cpu_count_1", "nested_pool", "completion_order_not_fifo"]
+EXPECTED_PROBES = ["blocks_ge2", "blocks_gt_elements", "all_null_block", "default_threads_heuristic_gt1", "cpu_count_1", "nested_pool", "completion_order_not_fifo", "stmt_fault_armed", "preemptive_pools", "tasks_interleaved_inside_bodies", "retry_after_fault"]
 
 _F = [1.0, np.nan, 0.0, -2.0, 0.5, 3.0, 7.0]
 _FA = [0.1, np.nan, 1e-3, -3.7, 2.5e5, 1 / 3, -1e-7, 123.456, 9.99e5]
